@@ -57,6 +57,7 @@ class Ctx:
         self.tlc_runs = []          # summaries of every TLC run
         self.violations = []        # dicts: signature, what, replay
         self.known_hits = []        # known findings met in this run
+        self.conformance = []       # model/code conformance failures (not verdicts)
         self.n_tlc = 0
 
     def _cleanup(self):
@@ -333,25 +334,43 @@ def finish(ctx, level, coverage, assumptions):
         "wall_s": round(time.time() - ctx.t0, 2),
         "violations": len({v["signature"] for v in new}),
         "known_findings_met": list(hits.keys()),
+        "model_mismatches": [c["signature"] for c in ctx.conformance],
         "tlc_runs": ctx.tlc_runs,
     }
     os.makedirs(os.path.join(VERIF, "evidence"), exist_ok=True)
     with open(os.path.join(VERIF, "evidence", ctx.prop + ".json"), "w") as f:
         json.dump(ev, f, indent=1, default=str)
+    if not new and ctx.conformance:
+        rdir = os.path.join(VERIF, "replays", ctx.prop)
+        os.makedirs(rdir, exist_ok=True)
+        for c in ctx.conformance[:10]:
+            print("MODEL-MISMATCH property=%s %s" % (ctx.prop, c["what"]))
+        with open(os.path.join(rdir, "model-mismatch.json"), "w") as f:
+            json.dump(ctx.conformance[:20], f, indent=1, default=str)
+        print("INCONCLUSIVE property=%s: the real code took steps the reference model does not describe, while every "
+              "predicate of the property held on the observed states (details: replays/%s/model-mismatch.json)"
+              % (ctx.prop, ctx.prop))
+        sys.exit(2)
     log("%s %s: %s in %.1fs" % (ctx.prop, ctx.tier, "VIOLATION" if new else "held", time.time() - ctx.t0))
     sys.exit(1 if new else 0)
 
 
 def add_violations_from_bad(ctx, bad, trace_path, what_prefix="", sig_of=None, reset_event="Reset",
-                            max_report=8):
-    """Turn monitor judgements into violations. Signature = tag@event unless sig_of given."""
+                            verdict=lambda tag: tag.startswith("Inv."), max_report=8):
+    """Turn monitor judgements into violations.
+
+    Tags for which verdict(tag) holds are the property's own predicates evaluated on real
+    observations: they become violations (signature tag@event unless sig_of is given).  All other
+    tags are conformance judgements (the reference action / projection coherence): a failure means
+    the model does not describe the code, which is reported as inconclusive (exit 2) by finish()
+    unless a real violation was found as well."""
     groups = collections.OrderedDict()
     for line, event, tag in bad:
         sig = sig_of(line, event, tag) if sig_of else "%s@%s" % (tag, event)
-        groups.setdefault(sig, []).append(line)
-    for sig, lines in groups.items():
+        groups.setdefault((sig, verdict(tag)), []).append(line)
+    for (sig, is_verdict), lines in groups.items():
         first = lines[0]
-        ctx.violations.append({
+        rec = {
             "property": ctx.prop,
             "signature": sig,
             "what": "%sjudgement %s failed at trace line %d (%d occurrences)" % (what_prefix, sig, first, len(lines)),
@@ -359,7 +378,8 @@ def add_violations_from_bad(ctx, bad, trace_path, what_prefix="", sig_of=None, r
             "trace_line": first,
             "event": read_trace_line(trace_path, first),
             "history": history_before(trace_path, first, reset_event),
-        })
+        }
+        (ctx.violations if is_verdict else ctx.conformance).append(rec)
 
 
 def main(run):
